@@ -541,7 +541,6 @@ func TestVerif_C15(t *testing.T) {
 	rep.Require(rep.Counter("concurrent_listings") > 1000, "too few concurrent listings")
 }
 
-
 // yieldingWriter hands the processor over on every Write (a dump that goes to a pipe or a file).
 type yieldingWriter struct{ w io.Writer }
 
